@@ -5,6 +5,7 @@ package main
 //
 //	new <mem|level|pndb> <version>      always first
 //	ver <n>                             set trie version
+//	layer                               continue in a fresh LevelNodeDB level over the store used so far
 //	ins <path> <hexvalue>               Insert
 //	insempty <path>                     Insert of an empty value (must behave as Delete)
 //	insbig <path>                       Insert of a value of MPTMaxAllowableNodeSize+1 bytes (must be rejected)
@@ -171,6 +172,11 @@ func runMptMap(ops []string, checkCanon bool) CaseResult {
 			st = &mptState{mpt: newMPT(openStore(f[1]), v, nil), content: map[string][]byte{}, used: map[string]bool{}, version: v}
 			tags["store:"+f[1]] = true
 			out = "ok"
+		case "layer":
+			// continue in a fresh level (as a transaction trie does) over the store used so far
+			st.mpt = newMPT(util.NewLevelNodeDB(util.NewMemoryNodeDB(), st.mpt.GetNodeDB(), false), st.version, st.mpt.GetRoot())
+			tags["layered-over-content"] = true
+			out = "ok"
 		case "ver":
 			v, _ := strconv.ParseInt(f[1], 10, 64)
 			if v != st.version {
@@ -315,6 +321,25 @@ func runMptMap(ops []string, checkCanon bool) CaseResult {
 			if want := "ok " + fmtPairs(sortedPairs(st.content)); got != want {
 				fail(i, "afterwards iteration = %q, want %q", got, want)
 			}
+			// the same content must be readable through a second trie over the same store (fresh node cache):
+			// the writing trie's own cache must not be what makes the state readable
+			clone := util.CloneMPT(st.mpt)
+			for p := range st.used {
+				got := guard(func() string {
+					v, err := clone.GetNodeValueRaw([]byte(p))
+					if err != nil {
+						return errKind(err)
+					}
+					return "ok " + hx(v)
+				})
+				want := "notpresent"
+				if v, ok := st.content[p]; ok {
+					want = "ok " + hx(v)
+				}
+				if got != want {
+					fail(i, "afterwards lookup(%s) through a second trie over the same store = %q, want %q", p, got, want)
+				}
+			}
 			if checkCanon && !st.multiV {
 				want := rootStr(canonRoot(st.content, st.version))
 				if got := rootStr(st.mpt.GetRoot()); got != want {
@@ -449,6 +474,8 @@ func genMptMap(fixedVersion bool) func(r *rand.Rand, tier string, idx int) []str
 				ops = append(ops, "iter")
 			case x < 94 && idx%50 == 0:
 				ops = append(ops, "insbig "+p)
+			case x < 96 && idx%2 == 1:
+				ops = append(ops, "layer")
 			default:
 				if !fixedVersion {
 					if ver < 1<<63-8 { // versions are non-negative int64 (block rounds): never wrap
